@@ -66,6 +66,10 @@ CLAIMED = {
    text="TLC explores the settings-vector machine of MC_C14 (replacement | patch of the target definition, conversion schema, global derive, builder, three map types) over a document that uses the target and the conversion schema through every use-site kind; each case is rendered by the real typify, compiled and its unaffected types are executed; TLC validates the syn inventory against ContractSettings (replaced definition absent and replacement named at every use, allOf merged structurally, patched name and derives everywhere, conversion type at every equal subschema, global derive on every type, configured map type everywhere except string-to-any maps) and compares the acceptance/round-trip vectors of unaffected types with the default-settings baseline",
    note="bounded: 72 settings vectors x one hub document with 16 use sites; trusted: TLC, syn, rustc, serde, vdrive",
    ref="DESIGN.md 6 C14"),
+ "C12": dict(
+   text="for every (document, settings, history) case enumerated by TLC (MC_C01) the real generator is run in several fresh processes (fresh hash seeds) on several encodings of the same document (object key order sorted / reversed / rotated, compact / spaced text) and twice on one type space; TLC validates the recorded digests against the C12 contract (all runs of a case equal, re-rendering identical)",
+   note="hash-seed dependence is sampled by fresh processes (3 quick / 6 thorough per case), not enumerated; trusted: TLC, vdrive, 64-bit digest",
+   ref="DESIGN.md 6 C12"),
 }
 NA_REASON = {}
 DEFAULT_NA = "check under construction in this session (DESIGN.md 11); not yet claimed"
